@@ -112,15 +112,26 @@ let show_lobs = function
 
 let plain = function LoCount -> true | _ -> false
 
+(* listeners that wait (Db/SnapView.v): the kinds of all registered listeners at this point of the history *)
+let cur_kinds : lkind list ref = ref []
+
 let show (o : xop) (b : xobs) (x : xdb) : string =
   let d = x.base in
   let l = " L[" ^ dump d.live ^ "]" in
   match b with
   | XoBase ob -> (match o with XBase o' -> show_base o' ob d | _ -> "addl") ^ l
   | XoRestored ls ->
+      let ks = !cur_kinds in
+      let waiting = List.exists (fun k -> k <> KRun) ks in
+      let ret = returning ks in
+      let lob i lo =
+        match List.nth_opt ks i with
+        | Some KBlock -> "b:waiting"                                        (* started, never returns *)
+        | Some (KWait _) -> if List.nth ret i then "d" else "d:waiting"     (* returns iff what it waits for does *)
+        | _ -> show_lobs lo in
       Printf.sprintf "restore fired=%d" (int_of_nat d.fired)
-      ^ (if List.for_all plain ls then ""
-         else Printf.sprintf " calls=%d S[%s]" (int_of_nat d.idf_calls) (String.concat "," (List.map show_lobs ls)))
+      ^ (if List.for_all plain ls && not waiting then ""
+         else Printf.sprintf " calls=%d S[%s]" (int_of_nat d.idf_calls) (String.concat "," (List.mapi lob ls)))
       ^ l
   | XoRefused -> Printf.sprintf "restore refused fired=%d" (int_of_nat d.fired) ^ l
   | XoNoFile -> "nofile" ^ l
@@ -234,16 +245,45 @@ let mshow (o : mop) (b : mxobs) (p : pdb) : string =
       String.sub body 0 cut ^ " C[" ^ c ^ "]" ^ l
   | _, _ -> "?" ^ l
 
+(* the seventh wave's operations (Db/SnapView.v):
+     snap stale <commit> <wops>    SnapshotInTx inside a read transaction opened before another goroutine's transaction
+     addlb / addld <j>             restore listeners that block for good / return once listener j has returned *)
+let parse_vop () : vop =
+  match next () with
+  | "addlb" -> VAddListener KBlock
+  | "addld" -> VAddListener (KWait (nat_of_int (next_int ())))
+  | "snap" when !toks.(!pos) = "stale" ->
+      let _ = next () in
+      let c = next_int () = 1 in
+      let ws = parse_wops () in
+      VSnapStale (ws, c)
+  | _ -> decr pos; VM (parse_mop ())
+
+let vshow (o : vop) (b : vobs) (v0 : vdb) (v : vdb) : string =
+  cur_kinds := v.kinds;
+  let d = v.vm.px.base in
+  let l = " L[" ^ dump d.live ^ "]" in
+  match b, o with
+  | VoM mb, VM mo -> mshow mo mb v.vm
+  | VoM _, VAddListener _ -> "addl" ^ l
+  | VoSnapStale (id, ok), _ ->
+      (* V: what the old read transaction saw = what was committed when it began *)
+      "snap " ^ hex_of_bytes id ^ " F[" ^ dump (last d.files) ^ "] V[" ^ dump v0.vm.px.base.live ^ "] T[" ^ (if ok then "1" else "0") ^ "]" ^ l
+  | _, _ -> "?" ^ l
+
 let () =
   iter_lines (fun line ->
     match split_ws line with
     | "H" :: rest ->
         toks := Array.of_list rest; pos := 0;
         let n = next_int () in
-        let rec go k acc = if k = 0 then List.rev acc else let o = parse_mop () in go (k - 1) (o :: acc) in
+        let rec go k acc = if k = 0 then List.rev acc else let o = parse_vop () in go (k - 1) (o :: acc) in
         let ops = go n [] in
-        let res = mrun_obs caps empty_pdb ops in
-        print_endline ("H " ^ String.concat " | " (List.map2 (fun o (b, x) -> mshow o b x) ops res))
+        let rec run v ops acc =
+          match ops with
+          | [] -> List.rev acc
+          | o :: r -> let (v', b) = vstep caps v o in run v' r (vshow o b v v' :: acc) in
+        print_endline ("H " ^ String.concat " | " (run empty_vdb ops []))
     | "R" :: _ -> print_endline "R ok"
     | [] -> ()
     | _ -> print_endline "?")
